@@ -22,7 +22,7 @@ def calc_velo_and_disp_from_accel_arr(acceleration, dt, trap=True):
         displacement time series
     """
     from scipy.integrate import cumulative_trapezoid
-    if trap is False:
+    if not trap:
         velocity = np.zeros(len(acceleration) + 1)
         velocity[1:] = np.asarray(acceleration) * dt  # computes the increments
         np.cumsum(velocity, out=velocity)  # passed into original array for efficiency
